@@ -123,6 +123,16 @@ class Intervals:
         return None
 
 
+class PrefixPath:
+    """View of a path up to (not including) effect idx, with the constraints known at that point."""
+
+    def __init__(self, p, idx, cons):
+        self.effects = p.effects[:idx]
+        self.cons = cons
+        self.ret = None
+        self.kind = "prefix"
+
+
 class Ob:
     def __init__(self, kind, fn, desc, site, status, why, path):
         self.kind = kind
@@ -163,16 +173,28 @@ def collect(F, fn_path, tag="", inline_pred=None, facts_hook=None, loop_k=1):
                 o.status, o.why, o.path = status, why, p
 
     for p in ps:
-        facts = None
+        cur = {"idx": 0, "snap": None, "facts": None}
 
         def get_facts():
-            nonlocal facts
-            if facts is None:
-                facts = lin.facts_of_path(p)
+            # only what was established BEFORE the obligation: the constraint snapshot taken at that point
+            # (never the whole path's constraints - they contain the obligation's own success assumption)
+            if cur["facts"] is None:
+                snap = cur["snap"]
+                fs = lin.facts_of_cons(snap if snap is not None else {})
                 if facts_hook:
-                    facts = facts + facts_hook(F, p, lin, expand)
-            return facts
+                    fs = fs + facts_hook(F, PrefixPath(p, cur["idx"], snap if snap is not None else {}), lin, expand)
+                cur["facts"] = fs
+            return cur["facts"]
         for idx, e in enumerate(p.effects):
+            cur["idx"] = idx
+            cur["facts"] = None
+            cur["snap"] = None
+            if e[0] == "assert" and len(e) > 5:
+                cur["snap"] = e[5]
+            elif e[0] == "call" and len(e) > 6:
+                cur["snap"] = e[6]
+            elif e[0] == "unwrap" and len(e) > 5:
+                cur["snap"] = e[5]
             if e[0] == "assert":
                 kind, site, status = e[1], e[2], e[3]
                 if status == "discharged":
